@@ -887,3 +887,29 @@ func mmEngine(root []MNode, files map[string][]MNode, globals, ctx Val) (string,
 	out, err := tpl.Execute(c)
 	return out, err, c, set
 }
+
+
+// mmEngineSeq compiles once and executes the same compiled template with each context in turn.
+func mmEngineSeq(root []MNode, files map[string][]MNode, globals Val, ctxs []Val) ([]string, []error, error) {
+	fs := map[string]string{}
+	for name, ns := range files {
+		fs[name] = mmSrc(ns)
+	}
+	fs["/root.tpl"] = mmSrc(root)
+	set := pongo2.NewSet("mmseq", newMemLoader(fs))
+	for i, k := range globals.Ks {
+		set.Globals[k.Str()] = Build(globals.E[i])
+	}
+	tpl, err := set.FromFile("/root.tpl")
+	if err != nil {
+		return nil, nil, err
+	}
+	var outs []string
+	var errs []error
+	for _, c := range ctxs {
+		o, e := tpl.Execute(BuildContext(c))
+		outs = append(outs, o)
+		errs = append(errs, e)
+	}
+	return outs, errs, nil
+}
